@@ -107,6 +107,7 @@ type input struct {
 	Asm  *asmInput `json:"asm,omitempty"`
 	API  *apiInput `json:"api,omitempty"`
 	VM   *vmInput  `json:"vm,omitempty"`
+	LM   *lmInput  `json:"lm,omitempty"`
 }
 
 type obs struct {
@@ -787,6 +788,8 @@ func run(raw json.RawMessage) (hx.Case, error) {
 		return runAPI(in.API)
 	case "vm":
 		return runVM(in.VM)
+	case "lm":
+		return runLM(in.LM)
 	}
 	return hx.Case{}, fmt.Errorf("bad case kind %q", in.Kind)
 }
@@ -804,6 +807,8 @@ func init() {
 			"translation requests and control verbs (Pause/Invalidate/Enable, Drain/Enable, Reset of the top k modules mid-traffic) " +
 			"and the same closing rounds. A history counts as quiescent only if the whole script was issued and every control verb " +
 			"was acknowledged. " +
+			"lm: one banked / ideal memory module driven directly with one- or two-slot buffers on every port (Control included) and " +
+			"control verbs issued back to back. " +
 			"api: random interleavings of request / buffer / subtask lifecycles over 1-3 domains and real ports, each closed by the normal " +
 			"helper or by the reset helper, plus scripts left open. Non-trivial: asm with a Reset in the middle of traffic, >= 20 tasks and " +
 			"the script completed; api closed with resets and >= 5 tasks. Distinct = distinct input hash.",
